@@ -118,3 +118,44 @@ package keeper
 //@ loop 0: invariant forall j :: #i <= j && j < len(sids) ==> readySigning(Store_tss, sids[j])
 //@ loop 0: invariant forall a, b :: 0 <= a && a < b && b < len(sids) ==> sids[a] != sids[b]
 //@ loop 1: invariant len(pendingSids(Store_tss)) == 0
+
+// ---- C09: signers chosen for a signing attempt (partial Fisher-Yates over the available members) ----------
+// available members: active with a queued nonce, pairwise different (body: iterator loop, see C05)
+//@ func (k Keeper) GetAvailableMembers
+//@ trusted
+//@ ensures forall i, j :: 0 <= i && i < j && j < len(result) ==> result[i] != result[j]
+
+// Exactly Threshold pairwise different members, all taken from the available ones, or an error when there are
+// too few. Invariant of the draw loop: the live prefix memberIdx[0 .. n-i) is duplicate-free and in range, and
+// every member selected so far sits at an index that is no longer in that prefix.
+//@ func (k Keeper) GetRandomMembers
+//@ ensures err == nil ==> len(result) == old(groupAt(Store_tss, groupID)).Threshold
+//@ ensures err == nil ==> (forall a, b :: 0 <= a && a < b && b < len(result) ==> result[a] != result[b])
+//@ loop 0: invariant 0 <= i && i <= members_size && len(memberIdx) == members_size && (forall a :: 0 <= a && a < i ==> memberIdx[a] == a)
+//@ loop 1: invariant 0 <= i && i <= group.Threshold && len(selected) == i && len(memberIdx) == members_size
+//@ loop 1: invariant forall a :: 0 <= a && a < members_size - i ==> 0 <= memberIdx[a] && memberIdx[a] < members_size
+//@ loop 1: invariant forall a, b :: 0 <= a && a < b && b < members_size - i ==> memberIdx[a] != memberIdx[b]
+//@ loop 1: invariant forall j :: 0 <= j && j < len(selected) ==> (exists c :: 0 <= c && c < members_size && selected[j] == members[c] && (forall a :: 0 <= a && a < members_size - i ==> memberIdx[a] != c))
+//@ loop 1: invariant forall a, b :: 0 <= a && a < b && b < len(selected) ==> selected[a] != selected[b]
+
+// ---- C04: on-chain complaint verification ------------------------------------------------------------------
+//@ spec r1At(s Store, g Int, m Int) types.Round1Info = dec(types.Round1Info, s[types.Round1InfoStoreKey(g, m)])
+//@ spec r2At(s Store, g Int, m Int) types.Round2Info = dec(types.Round2Info, s[types.Round2InfoStoreKey(g, m)])
+// slot of the share the respondent (dealer) encrypted for the complainant: ids are 1-based, own id skipped
+//@ spec shareSlot(dealer Int, receiver Int) Int = receiver < dealer ? receiver - 1 : receiver - 2
+
+// A complaint succeeds exactly when both parties' round-1 data and the respondent's round-2 data exist, the
+// respondent dealt a share for the complainant, and the cryptographic check accepts the complainant's and the
+// respondent's one-time keys, the key sym, the signature, THE SHARE THE RESPONDENT ENCRYPTED FOR THE COMPLAINANT
+// and the respondent's commitments.
+//@ func (k Keeper) VerifyComplaint
+//@ requires 1 <= complaint.Complainant && 1 <= complaint.Respondent && complaint.Complainant != complaint.Respondent
+//@ requires complaint.Complainant <= MaxInt64 && complaint.Respondent <= MaxInt64
+//@ ensures err == nil <==> (has(Store_tss, types.Round1InfoStoreKey(groupID, complaint.Complainant))
+//@       && has(Store_tss, types.Round1InfoStoreKey(groupID, complaint.Respondent))
+//@       && has(Store_tss, types.Round2InfoStoreKey(groupID, complaint.Respondent))
+//@       && shareSlot(complaint.Respondent, complaint.Complainant) < len(r2At(Store_tss, groupID, complaint.Respondent).EncryptedSecretShares)
+//@       && tss.validComplaint(r1At(Store_tss, groupID, complaint.Complainant).OneTimePubKey, r1At(Store_tss, groupID, complaint.Respondent).OneTimePubKey,
+//@             complaint.KeySym, complaint.Signature,
+//@             r2At(Store_tss, groupID, complaint.Respondent).EncryptedSecretShares[shareSlot(complaint.Respondent, complaint.Complainant)],
+//@             complaint.Complainant, r1At(Store_tss, groupID, complaint.Respondent).CoefficientCommits))
